@@ -19,7 +19,9 @@ IMG = {"int": _I, "str": _S, "list[int]": frozenset([("n", "List", (_I,))]), "tu
 STYLES = ["NUMPYDOC", "GOOGLE", "REST"]
 FREE = "whatever the caller passed in"  # a documented 'type' that is prose: the docstring gives no type
 # *_selfnames: explicit (non-receiver) parameters that are NAMED self / cls
-OWNERS = ["function", "method", "ctor", "function_selfnames", "static_selfnames", "function_twinnames"]
+OWNERS = ["function", "method", "ctor", "ctor_initdoc", "function_selfnames", "static_selfnames", "function_twinnames"]
+# constructor parameters documented in the CLASS docstring ("ctor") or in the docstring of __init__ itself ("ctor_initdoc", seed C14f)
+CTOR_OWNERS = ("ctor", "ctor_initdoc")
 
 
 def docstring(style: str, params: list[tuple[str, str | None]], results: list[tuple[str | None, str | None]], ind: str) -> str:
@@ -85,6 +87,8 @@ def render(cid: int, style: str, owner: str, params: list[tuple[str | None, str 
         s2 = ", ".join(x for x in ("self", sig) if x)
         return f'class K{cid}:\n    def f{cid}({s2}){ret}:\n        """{docstring(style, pdoc, rdoc, "        ")}"""\n        ...\n'
     s2 = ", ".join(x for x in ("self", sig) if x)
+    if owner == "ctor_initdoc":
+        return f'class K{cid}:\n    def __init__({s2}) -> None:\n        """{docstring(style, pdoc, [], "        ")}"""\n        ...\n'
     return f'class K{cid}:\n    """{docstring(style, pdoc, [], "    ")}"""\n\n    def __init__({s2}) -> None:\n        ...\n'
 
 
@@ -251,7 +255,7 @@ def run(rep: Report, tier: str, seed: int) -> None:
             for tsp in ("CODE", "DOCSTRING"):
                 o = Opts(docstyle=style, tsp=tsp, tsw="WARN")
                 ix = idx[(tsp, "WARN")]
-                hits = ix.find(f"K{c.cid}", "class") if owner == "ctor" else ix.find(f"f{c.cid}", "fun")
+                hits = ix.find(f"K{c.cid}", "class") if owner in CTOR_OWNERS else ix.find(f"f{c.cid}", "fun")
                 if len(hits) != 1:
                     rep.extra["decl_not_found(C03)"] = rep.extra.get("decl_not_found(C03)", 0) + 1
                     continue
@@ -268,7 +272,7 @@ def run(rep: Report, tier: str, seed: int) -> None:
                         rep.ok(f"param-type:{kind}:{tsp}")
                     else:
                         viol("param-type", f"{kind}:{tsp}:{owner}:hint={hint}:doc={doc}", {"param": i, "expected": str(want), "observed": sp.type.render() if sp.type else None}, o)
-                if owner != "ctor":
+                if owner not in CTOR_OWNERS:
                     sres = d.results or []
                     exp = [expected_type(h, dc, tsp) for h, dc in results]
                     exp = [e for e in exp if e is not None]
@@ -279,12 +283,12 @@ def run(rep: Report, tier: str, seed: int) -> None:
                     else:
                         viol("result-type", f"{kinds}:{tsp}:{owner}:" + ",".join(f"{h}/{dc}" for h, dc in results), {"expected": [str(e) for e in exp], "observed": [r.type.render() if r.type else None for r in sres]}, o)
                 # (5) warnings: exactly one per parameter/result whose two types differ, none with IGNORE
-                fid = f"/f{c.cid}'" if owner != "ctor" else f"/K{c.cid}/__init__'"
+                fid = f"/f{c.cid}'" if owner not in CTOR_OWNERS else f"/K{c.cid}/__init__'"
                 n_warn = sum(1 for lvl, msg in obs_by[(tsp, "WARN")].logs if lvl == "WARNING" and msg.startswith("Different type hint and docstring types") and fid in msg)
                 n_ign = sum(1 for lvl, msg in obs_by[(tsp, "IGNORE")].logs if lvl == "WARNING" and msg.startswith("Different type hint and docstring types") and fid in msg)
-                want_n = sum(1 for h, dc in params if h and dc and h != dc) + sum(1 for h, dc in (results if owner != "ctor" else []) if h and dc and dc != FREE and h != dc)
+                want_n = sum(1 for h, dc in params if h and dc and h != dc) + sum(1 for h, dc in (results if owner not in CTOR_OWNERS else []) if h and dc and dc != FREE and h != dc)
                 if n_warn != want_n:
-                    differing = [(h, dc) for h, dc in [*params, *(results if owner != "ctor" else [])] if h and dc and dc != FREE and h != dc]
+                    differing = [(h, dc) for h, dc in [*params, *(results if owner not in CTOR_OWNERS else [])] if h and dc and dc != FREE and h != dc]
                     n_oo = sum(1 for h, dc in differing if sorted(__import__("re").findall(r"\w+", h)) == sorted(__import__("re").findall(r"\w+", dc)))
                     # exactly the order-only conflicts are missing -> the (known) order-insensitive comparison, nothing else
                     order_only = n_oo > 0 and n_warn == want_n - n_oo
